@@ -109,8 +109,15 @@ def array_presentations():
     return B
 
 
+def falsy_values():
+    """falsy-but-valid values (a writer that saves a field 'only if it has a
+    value' drops them) and one-element containers; (label, value)"""
+    return [("zero", 0), ("zero_float", 0.0), ("false", False), ("np.int64_zero", np.int64(0)),
+            ("np.float32_zero", np.float32(0.0)), ("list_one", [5]), ("arr_one", np.array([7]))]
+
+
 def full_alphabet():
-    return value_alphabet() + array_presentations()
+    return value_alphabet() + array_presentations() + falsy_values()
 
 
 REPRESENTATIVES = ("int", "np.float32", "str", "list_int", "set_int", "arr_i64", "arr_2d_i64", "arr_empty_2d")
@@ -139,7 +146,9 @@ def result_alphabets_with_arrays():
     """+ a 0-d array observation for SUM (the only array a Result can hold and
     still be compared with ==)"""
     al = result_alphabets()
-    al["SUM"] = al["SUM"] + [[np.array(2.5)]]
+    al["SUM"] = al["SUM"] + [[np.array(2.5)], [0], [0.0]]
+    # falsy observations: a MISC result whose value is '' / [] / 0 / False has a value
+    al["MISC"] = al["MISC"] + [[""], [[]], [0], [False]]
     return al
 
 
@@ -339,6 +348,10 @@ def do_save(c, obj, target, T, template, case):
         return {"text": obj.to_json()}
     if target == "pickle":
         return {"bytes": pickle.dumps(obj, protocol=2)}
+    if target == "dict":
+        # alternative entry point: the dictionary representation itself (deep-copied: to_dict hands out
+        # the object's own containers)
+        return {"dict": copy.deepcopy(obj.to_dict())}
     if target == "params_pickle_file":
         d, p = T.path("params.pickle")
         try:
@@ -378,8 +391,18 @@ def do_load(cls, h):
             return pickle.loads(h["bytes"])
         if "params_file" in h:
             return cls.load_from_pickled_file(h["params_file"])
+        if "dict" in h:
+            return cls.from_dict(h["dict"])
         if "file" in h:
-            return cls.load_from_file(h["file"])
+            out = cls.load_from_file(h["file"])
+            stem = h["file"][:-len(".pickle")] if h["file"].endswith(".pickle") else None
+            if stem is not None:
+                # alternative entry point: load_from_file appends '.pickle' to an extension-less name
+                if "." in os.path.basename(stem):
+                    h["alt"] = "excluded"      # 'res_2.5' HAS an extension ('.5') for splitext
+                else:
+                    h["alt"] = cls.load_from_file(stem)
+            return out
         return cls.from_json(h["text"])
     finally:
         if "dir" in h:
@@ -425,7 +448,7 @@ def roundtrip(c, obj, target, case, T, template=None):
     """the whole oracle for one (object, target)"""
     kind = cls_of(obj)
     c.count("eval_roundtrips")
-    tg = "json" if target in ("json", "file_json") else "pickle"
+    tg = "json" if target in ("json", "file_json") else ("dict" if target == "dict" else "pickle")
     orig_snapshot = copy.deepcopy(obj)
     r = save_then_load(c, obj, target, T, template, case, tg)
     if r is None:
@@ -447,6 +470,21 @@ def roundtrip(c, obj, target, case, T, template=None):
                 c.fail(("file_name", "original_filename"), case,
                        observed=(info["original_filename"], l1.original_filename), expected=exp_orig)
             c.outcome("file_names", os.path.basename(info["returned"]))
+            alt = h1.get("alt")
+            if isinstance(alt, str):
+                c.count("excluded_pickleless_name_with_a_dot")
+            elif alt is not None:
+                c.count("eval_load_by_pickleless_name")
+                da = diff(l1, alt)
+                if da is not None:
+                    c.fail(("load_from_file", "pickleless_name_loads_something_else") + sig_of(da), case,
+                           observed=da[2])
+        elif kind == "SimulationResults":
+            # original_filename is ignored by == and skipped by diff (files set it): compare it here
+            a, b = obj.original_filename, l1.original_filename
+            if type(a) is not type(b) or a != b:
+                c.fail((tg, "changed", "SimulationResults.original_filename", "%s->%s" % (tname(a), tname(b))),
+                       case, observed="%r -> %r" % (a, b), expected="identical field")
         # (1) the library's own equality
         eq = None
         with c.guard((tg, "eq(original,loaded)"), case):
@@ -586,7 +624,7 @@ def run_params_case(c, case, T):
     targets = case.get("targets") or params_targets(len(labels), which, len(subset))
     for tg in targets:
         cs = dict(case, target=tg)
-        if tg in ("json", "pickle", "params_pickle_file"):
+        if tg in ("json", "pickle", "dict", "params_pickle_file"):
             roundtrip(c, p, tg, cs, T)
         else:
             inner = tg[3:]
@@ -604,8 +642,8 @@ def params_targets(n, which, nsub):
     alt = "SR:file_json" if (which if which >= 0 else nsub) % 2 == 0 else "SR:file_pickle"
     if n <= 2:
         if which < 0:
-            return ["json", "pickle", "SR:json", "SR:pickle", "params_pickle_file", "SR:file_json",
-                    "SR:file_pickle", "SR:file_noext"]
+            return ["json", "pickle", "dict", "SR:json", "SR:pickle", "SR:dict", "params_pickle_file",
+                    "SR:file_json", "SR:file_pickle", "SR:file_noext"]
         return ["json", "pickle", alt]
     if which < 0:
         return ["json", "pickle", alt]
@@ -616,11 +654,12 @@ def params_cases(tier):
     """deterministic generator of (labels, unpack subset) work items"""
     A = [lab for lab, _ in value_alphabet()]
     B = [lab for lab, _ in array_presentations()]
-    for lab in A + B:
+    F = [lab for lab, _ in falsy_values()]
+    for lab in A + B + F:
         yield ("P", [lab])
     if tier == "thorough":
-        for a in A + B:
-            for b in A + B:
+        for a in A + B + F:
+            for b in A + B + F:
                 yield ("P", [a, b])
         for labs in itertools.product(A, repeat=3):
             yield ("P", list(labs))
@@ -634,6 +673,13 @@ def params_cases(tier):
                 yield ("P", [a, b])
         for a in REPRESENTATIVES:
             for b in B:
+                yield ("P", [a, b])
+        # falsy values / one-element containers likewise
+        for a in F:
+            for b in F + list(REPRESENTATIVES):
+                yield ("P", [a, b])
+        for a in REPRESENTATIVES:
+            for b in F:
                 yield ("P", [a, b])
 
 
@@ -693,7 +739,7 @@ def run_result_case(c, case, T):
     c.outcome("result_histories", (t, len(idx)))
     sub = case.get("sub")
     if sub is None or sub == "result":
-        for tg in ("json", "pickle"):
+        for tg in ("json", "pickle", "dict"):
             roundtrip(c, r, tg, dict(case, target=tg), T)
     if sub is None or sub == "set":
         from pyphysim.simulations.parameters import SimulationParameters
@@ -739,6 +785,290 @@ def result_cases(tier, types_ok):
             for n in range(0, (L if t in types_ok else 0) + 1):
                 for idx in itertools.product(range(len(al[t])), repeat=n):
                     yield ("R", {"part": "R", "type": t, "acc": acc, "history": list(idx)})
+
+
+# ----------------------------------------------------------------------
+# part B: bookkeeping fields with every falsy-but-valid value
+# ----------------------------------------------------------------------
+def bk_runned_reps():
+    return [None, 0, [], [0], [0, 0], np.int64(0), 7, [2, 5]]
+
+
+BK_CURRENT_REP = (-1, 0, 4)
+BK_ORIGINAL_FILENAME = (None, "", "res_{a}.json")
+BK_RESULTS = ("no_results", "zero_updates", "one_update", "zero_valued")
+BK_PARAMS = ("no_params", "one_param", "child_index_0", "unpacked_len1", "unpacked_len0")
+
+
+def build_bookkeeping(case):
+    from pyphysim.simulations.parameters import SimulationParameters
+    from pyphysim.simulations.results import Result, SimulationResults
+    s = SimulationResults()
+    pk = case["params"]
+    if pk == "one_param":
+        s.set_parameters(SimulationParameters.create({"a": 0}))
+    elif pk == "child_index_0":
+        p = SimulationParameters.create({"a": [0, 1]})
+        p.set_unpack_parameter("a")
+        s.set_parameters(p.get_unpacked_params_list()[0])        # unpack_index 0 (not -1)
+    elif pk == "unpacked_len1":
+        p = SimulationParameters.create({"a": [0]})
+        p.set_unpack_parameter("a")
+        s.set_parameters(p)
+    elif pk == "unpacked_len0":
+        p = SimulationParameters.create({"a": []})
+        p.set_unpack_parameter("a")
+        s.set_parameters(p)
+    rk = case["results"]
+    if rk == "zero_updates":
+        s.add_result(Result("r", Result.SUMTYPE))
+        s.add_result(Result("q", Result.RATIOTYPE, accumulate_values=True))
+    elif rk == "one_update":
+        r = Result("r", Result.SUMTYPE)
+        r.update(3)
+        s.add_result(r)
+    elif rk == "zero_valued":
+        # updated results whose every stored number is 0 / whose value is falsy
+        r = Result("r", Result.SUMTYPE, accumulate_values=True)
+        r.update(0)
+        s.add_result(r)
+        q = Result("q", Result.RATIOTYPE)
+        q.update(0, 5)
+        s.add_result(q)
+        m = Result("m", Result.MISCTYPE)
+        m.update("")
+        s.add_result(m)
+    s.runned_reps = copy.deepcopy(bk_runned_reps()[case["runned_reps"]])
+    s.current_rep = BK_CURRENT_REP[case["current_rep"]]
+    s.original_filename = BK_ORIGINAL_FILENAME[case["original_filename"]]
+    return s
+
+
+def bookkeeping_cases():
+    for pk in BK_PARAMS:
+        for rk in BK_RESULTS:
+            for rr in range(len(bk_runned_reps())):
+                for cr in range(len(BK_CURRENT_REP)):
+                    for of in range(len(BK_ORIGINAL_FILENAME)):
+                        if pk not in ("one_param", "no_params") and (cr, of) != (0, 0) and rr > 3:
+                            continue      # the parameter shapes are crossed with the first runned_reps values only
+                        yield ("B", {"part": "B", "params": pk, "results": rk, "runned_reps": rr,
+                                     "current_rep": cr, "original_filename": of})
+
+
+def run_bookkeeping_case(c, case, T):
+    has_a = case["params"] != "no_params"
+    targets = [case["target"]] if "target" in case else ["json", "pickle", "dict", "file_json", "file_pickle",
+                                                          "file_noext"]
+    c.nontriv(("B",) + tuple(case[k] for k in ("params", "results", "runned_reps", "current_rep",
+                                                 "original_filename")))
+    c.outcome("bookkeeping_shapes", (case["params"], case["results"]))
+    for tg in targets:
+        cs = dict(case, target=tg)
+        s = None
+        with c.guard(("build", "SimulationResults"), cs):
+            s = build_bookkeeping(case)
+        if s is not None:
+            roundtrip(c, s, tg, cs, T, "res_{a}" if has_a else "res")
+    if "target" not in case:
+        # the parameters object and every result on their own
+        s = None
+        with c.guard(("build", "SimulationResults"), case):
+            s = build_bookkeeping(case)
+        if s is not None and case["runned_reps"] == 0 and case["current_rep"] == 0 and case["original_filename"] == 0:
+            for tg in ("json", "pickle", "dict", "params_pickle_file"):
+                roundtrip(c, s.params, tg, dict(case, target="params:" + tg), T)
+            for lst in s._results.values():
+                for r in lst:
+                    for tg in ("json", "pickle", "dict"):
+                        roundtrip(c, r, tg, dict(case, target="result:" + tg), T)
+
+
+# ----------------------------------------------------------------------
+# part E: error paths
+# ----------------------------------------------------------------------
+def listing(d):
+    out = {}
+    for root, _, files in os.walk(d):
+        for f in files:
+            fp = os.path.join(root, f)
+            with open(fp, "rb") as fh:
+                out[os.path.relpath(fp, d)] = fh.read()
+    return out
+
+
+def good_results(extra=None):
+    from pyphysim.simulations.parameters import SimulationParameters
+    from pyphysim.simulations.results import Result, SimulationResults
+    s = SimulationResults()
+    d = {"a": 3, "b": [1, 2]}
+    if extra is not None:
+        d["bad"] = extra
+    s.set_parameters(SimulationParameters.create(d))
+    r = Result("r", Result.RATIOTYPE)
+    r.update(1, 4)
+    s.add_result(r)
+    s.runned_reps = 0
+    return s
+
+
+def part_errors(c, T):
+    from pyphysim.simulations.parameters import SimulationParameters
+    from pyphysim.simulations.results import Result, SimulationResults
+    good = good_results()
+    text = good.to_json()
+    pk = pickle.dumps(good, protocol=2)
+    # (a) malformed input must raise, leave the directory as it was
+    bad_texts = [("empty", ""), ("open_brace", "{"), ("half", text[:len(text) // 2]), ("not_json", "not json"),
+                 ("list", "[]"), ("empty_object", "{}"), ("null", "null"), ("trailing_garbage", text + "}"),
+                 ("missing_results", json.dumps({k: v for k, v in json.loads(text).items() if k != "results"}))]
+    for label, bad in bad_texts:
+        case = {"part": "E", "what": "load_malformed_json", "which": label}
+        with c.guard(("load_malformed",), case):
+            d, p = T.path("bad.json")
+            with open(p, "w") as f:
+                f.write(bad)
+            before = listing(d)
+            c.count("eval_error_paths")
+            for how, fn in (("load_from_file", lambda: SimulationResults.load_from_file(p)),
+                            ("SimulationResults.from_json", lambda: SimulationResults.from_json(bad)),
+                            ("SimulationParameters.from_json", lambda: SimulationParameters.from_json(bad)),
+                            ("Result.from_json", lambda: Result.from_json(bad))):
+                try:
+                    got = fn()
+                except Exception as e:  # noqa
+                    c.outcome("error_path_outcomes", (how, type(e).__name__))
+                else:
+                    c.fail(("load_malformed", "accepted", how), dict(case, how=how), observed=repr(got)[:200],
+                           expected="an exception")
+            if listing(d) != before:
+                c.fail(("load_malformed", "directory_changed"), case, observed=sorted(listing(d)),
+                       expected=sorted(before))
+            shutil.rmtree(d, ignore_errors=True)
+    for label, bad in (("empty", b""), ("half", pk[:len(pk) // 2]), ("all_but_one", pk[:-1]), ("text", b"hello")):
+        case = {"part": "E", "what": "load_malformed_pickle", "which": label}
+        with c.guard(("load_malformed",), case):
+            d, p = T.path("bad.pickle")
+            with open(p, "wb") as f:
+                f.write(bad)
+            before = listing(d)
+            c.count("eval_error_paths")
+            for how, fn in (("load_from_file", lambda: SimulationResults.load_from_file(p)),
+                            ("load_from_file_pickleless", lambda: SimulationResults.load_from_file(p[:-7])),
+                            ("load_from_pickled_file", lambda: SimulationParameters.load_from_pickled_file(p))):
+                try:
+                    got = fn()
+                except Exception as e:  # noqa
+                    c.outcome("error_path_outcomes", (how, type(e).__name__))
+                else:
+                    c.fail(("load_malformed", "accepted", how), dict(case, how=how), observed=repr(got)[:200],
+                           expected="an exception")
+            if listing(d) != before:
+                c.fail(("load_malformed", "directory_changed"), case, observed=sorted(listing(d)),
+                       expected=sorted(before))
+            shutil.rmtree(d, ignore_errors=True)
+    # (b) unknown extension: must raise, leave no file; a file of that name is not loaded either
+    case = {"part": "E", "what": "unknown_extension"}
+    with c.guard(("unknown_extension",), case):
+        d, p = T.path("res_{a}.txt")
+        s = good_results()
+        snap = copy.deepcopy(s)
+        c.count("eval_error_paths")
+        try:
+            name = s.save_to_file(p)
+        except Exception as e:  # noqa
+            c.outcome("error_path_outcomes", ("save_unknown_extension", type(e).__name__))
+        else:
+            c.fail(("unknown_extension", "save_accepted"), case, observed=name, expected="an exception")
+        if listing(d):
+            c.fail(("unknown_extension", "save_left_files"), case, observed=sorted(listing(d)), expected=[])
+        dd = diff(snap, s)
+        if dd is not None or snap.original_filename != s.original_filename:
+            # recorded, not required: the statement is about what is on disk
+            c.outcome("failed_save_touches_object", "unknown_extension:original_filename")
+        with open(os.path.join(d, "x.txt"), "w") as f:
+            f.write(text)
+        try:
+            got = SimulationResults.load_from_file(os.path.join(d, "x.txt"))
+        except Exception as e:  # noqa
+            c.outcome("error_path_outcomes", ("load_unknown_extension", type(e).__name__))
+        else:
+            c.fail(("unknown_extension", "load_accepted"), case, observed=repr(got), expected="an exception")
+        shutil.rmtree(d, ignore_errors=True)
+    # (c) a save that fails must not damage / replace what is stored under the final name
+    for ext, poison in ((".json", complex(1, 2)), (".pickle", lambda x: x)):
+        for existing in (True, False):
+            case = {"part": "E", "what": "failing_save", "ext": ext, "existing_file": existing}
+            with c.guard(("failing_save",), case):
+                d, p = T.path("keep" + ext)
+                if existing:
+                    good_results().save_to_file(p)
+                before = listing(d)
+                s = good_results(extra=poison)
+                c.count("eval_error_paths")
+                try:
+                    s.save_to_file(p)
+                except Exception as e:  # noqa
+                    c.outcome("error_path_outcomes", ("failing_save" + ext, type(e).__name__))
+                else:
+                    c.fail(("failing_save", "unserialisable_value_accepted"), case, expected="an exception")
+                    shutil.rmtree(d, ignore_errors=True)
+                    continue
+                after = listing(d)
+                final = os.path.basename(p)
+                if after.get(final) != before.get(final):
+                    c.fail(("failing_save", "file_under_final_name_changed_or_created", ext), case,
+                           observed="%d bytes" % len(after.get(final, b"")),
+                           expected="%s" % ("unchanged" if existing else "absent"))
+                if existing:
+                    back = SimulationResults.load_from_file(p)
+                    if diff(good_results(), back) is not None or not (back == good_results()):
+                        c.fail(("failing_save", "earlier_results_lost", ext), case, observed=diff(good_results(), back))
+                extra_files = sorted(set(after) - set(before))
+                c.outcome("failed_save_leftovers", (ext, tuple(os.path.splitext(f)[1] for f in extra_files)))
+                shutil.rmtree(d, ignore_errors=True)
+    # (d) unwritable destinations
+    for label in ("missing_directory", "final_name_is_a_directory"):
+        for ext in (".json", ".pickle"):
+            case = {"part": "E", "what": "unwritable", "which": label, "ext": ext}
+            with c.guard(("unwritable_destination",), case):
+                d, p = T.path("out" + ext)
+                if label == "missing_directory":
+                    p = os.path.join(d, "nowhere", "out" + ext)
+                else:
+                    os.mkdir(p)
+                    with open(os.path.join(p, "inside"), "w") as f:
+                        f.write("x")
+                before = listing(d)
+                c.count("eval_error_paths")
+                try:
+                    good_results().save_to_file(p)
+                except Exception as e:  # noqa
+                    c.outcome("error_path_outcomes", ("unwritable:" + label, type(e).__name__))
+                else:
+                    c.fail(("unwritable_destination", "save_accepted", label), case, expected="an exception")
+                after = listing(d)
+                changed = {k for k in before if after.get(k) != before[k]}
+                if changed or (label == "missing_directory" and after):
+                    c.fail(("unwritable_destination", "existing_content_damaged", label), case,
+                           observed=sorted(after), expected=sorted(before))
+                if os.path.isfile(p):
+                    c.fail(("unwritable_destination", "partial_file_under_final_name", label), case)
+                shutil.rmtree(d, ignore_errors=True)
+    # (e) SimulationParameters pickled-file entry point, error side
+    case = {"part": "E", "what": "params_pickled_file_missing_directory"}
+    with c.guard(("unwritable_destination",), case):
+        d, p = T.path("x")
+        c.count("eval_error_paths")
+        try:
+            good.params.save_to_pickled_file(os.path.join(d, "nowhere", "p.pickle"))
+        except Exception as e:  # noqa
+            c.outcome("error_path_outcomes", ("params_missing_directory", type(e).__name__))
+        else:
+            c.fail(("unwritable_destination", "save_accepted", "params"), case, expected="an exception")
+        if listing(d):
+            c.fail(("unwritable_destination", "left_files", "params"), case, observed=sorted(listing(d)))
+        shutil.rmtree(d, ignore_errors=True)
 
 
 # ----------------------------------------------------------------------
@@ -824,6 +1154,8 @@ def probe_choice(chk):
 
 
 def work_items(tier, types_ok):
+    for it in bookkeeping_cases():
+        yield it
     for it in result_cases(tier, types_ok):
         yield it
     for it in params_cases(tier):
@@ -857,6 +1189,8 @@ def main(chk: Check):
     try:
         with chk.guard(("file_name",), {"part": "N"}):
             part_names(chk)
+        with chk.guard(("error_paths",), {"part": "E"}):
+            part_errors(chk, Targets(chk, tempfile.mkdtemp(prefix="errors-", dir=top)))
 
         def worker(i, n, c):
             d = tempfile.mkdtemp(prefix="shard%d-" % i, dir=top)
@@ -865,6 +1199,8 @@ def main(chk: Check):
                 for item in shard(work_items(tier, types_ok), i, n):
                     if item[0] == "R":
                         run_result_case(c, item[1], T)
+                    elif item[0] == "B":
+                        run_bookkeeping_case(c, item[1], T)
                     else:
                         expand_params_item(c, item, tier, T)
             finally:
@@ -882,6 +1218,8 @@ def main(chk: Check):
     chk.require_outcomes("file_names", 50)
     chk.require_outcomes("result_histories", 6)
     chk.require_outcomes("roundtrip_outcomes", 4)
+    chk.require_outcomes("bookkeeping_shapes", len(BK_PARAMS) * len(BK_RESULTS))
+    chk.require_outcomes("error_path_outcomes", 10)
 
 
 def replay(case, chk: Check):
@@ -893,6 +1231,13 @@ def replay(case, chk: Check):
             probe_choice(chk)
         elif part == "N":
             part_names(chk)
+        elif part == "E":
+            part_errors(chk, T)
+        elif part == "B":
+            cs = dict(case)
+            if str(cs.get("target", "")).startswith(("params:", "result:")):
+                cs.pop("target")
+            run_bookkeeping_case(chk, cs, T)
         elif part == "P":
             cs = {k: v for k, v in case.items() if k != "target"}
             if "target" in case:
